@@ -560,12 +560,18 @@ def set_predicates(preds: Dict[str, ast.FunctionDef]) -> None:
 
 def _predicate_body(call: ast.Call) -> Optional[ast.AST]:
     f = call.func
-    if not (isinstance(f, ast.Attribute) and isinstance(f.value, ast.Name) and f.attr in PREDICATES):
-        return None
-    fn = PREDICATES[f.attr]
-    static = any(isinstance(d, ast.Name) and d.id == "staticmethod" for d in fn.decorator_list)
-    if f.value.id not in ("self", "cls") and not f.value.id[:1].isupper():
-        return None
+    if isinstance(f, ast.Name) and f.id in PREDICATES and getattr(PREDICATES[f.id], "_module_level", False):
+        fn = PREDICATES[f.id]  # a module-level predicate function called by its bare name
+        static = True
+    else:
+        if not (isinstance(f, ast.Attribute) and isinstance(f.value, ast.Name) and f.attr in PREDICATES):
+            return None
+        fn = PREDICATES[f.attr]
+        if getattr(fn, "_module_level", False):
+            return None
+        static = any(isinstance(d, ast.Name) and d.id == "staticmethod" for d in fn.decorator_list)
+        if f.value.id not in ("self", "cls") and not f.value.id[:1].isupper():
+            return None
     params = [a.arg for a in fn.args.args][0 if static else 1:]
     if fn.args.vararg or fn.args.kwarg or fn.args.kwonlyargs or any(isinstance(a, ast.Starred) for a in call.args) \
             or any(k.arg is None for k in call.keywords) or len(call.args) > len(params):
